@@ -134,7 +134,8 @@ Fixpoint bound_values (v : val) : list scalar :=
 (* "[]byte is one value": the reference reading of a statement is taken on the input in which every
    []byte argument is made opaque (wrapped like a driver.Valuer, which no code path takes apart) *)
 (* ... also where a []byte (or a driver.Valuer whose Value() is a []byte: a binary key) is the only
-   argument of a primary-key condition (First(&x, key), Where(key), Delete(&x, key)): it is ONE key *)
+   argument of a primary-key condition (First(&x, key), Where(key), Delete(&x, key)): it is ONE key
+   (read here independently of the construction model; gorm agrees since 70948e8) *)
 Definition sole_bytes (q : val) (args : list val) : option string :=
   match args, q with
   | [], VS (SBytes b) | [], VDrv (SBytes b) => match s2l b with [] => None | _ => Some b end
